@@ -23,7 +23,9 @@ VARIABLES now, mu, muq, snd, srv, workers, retained, rxq, sockOpen, inbOpen,
 
 vars == <<now, mu, muq, snd, srv, workers, retained, rxq, sockOpen, inbOpen, starting, queued, reader, got, delivered,
           nsend, nind, nbusy, nlost, nfail, ev, act>>
-view == <<now, mu, muq, snd, srv, workers, retained, rxq, sockOpen, inbOpen, starting, queued, reader, got,
+\* everything except the labels (ev, act) and tfire; `delivered` stays: NoDupDelivery reads it (an invariant is only
+\* evaluated on states whose VIEW is new)
+view == <<now, mu, muq, snd, srv, workers, retained, rxq, sockOpen, inbOpen, starting, queued, reader, got, delivered,
           nsend, nind, nbusy, nlost, nfail>>
 
 Unit == 1000
